@@ -321,6 +321,22 @@ def run_asm_case(case, res):
     s = ToySimulation(case["size"]) if case.get("size") else ToySimulation()
     if case.get("size"):
         res.count("sources_with_other_memory_size")
+    if case.get("overfull"):
+        # instructions and data need more words than the memory has: "the dedicated memory-size error for a program
+        # that does not fit" - accepting it means one word is instruction i and a data variable at the same time
+        from architecture_simulator.isa.parser_exceptions import MemorySizeException
+        from architecture_simulator.uarch.memory.memory import MemoryAddressError
+
+        res.count("overfull_sources")
+        try:
+            s.load_program(case["text"])
+        except (MemorySizeException, MemoryAddressError):
+            return
+        except Exception as e:
+            res.violation("C15", "untyped-load-error", "TOY source that does not fit (memory size %d, by %d words) raised %r" % (case["size"], case["overfull"], e), case)
+            return
+        res.violation("C19", "overfull-accepted", "memory size %d, the source needs %d words more (instructions + data) but was accepted: instruction i is not at address i or a variable is not where it was declared" % (case["size"], case["overfull"]), case)
+        return
     try:
         s.load_program(case["text"])
         if case.get("again"):
@@ -678,6 +694,14 @@ def run_shard(spec, res):
             case = gen_source(rng, sz, tight=sz <= 64 and rng.random() < 0.6)
             if rng.random() < 0.3:
                 case["again"] = True
+            if sz <= 64 and rng.random() < 0.25:
+                # the same kind of source, one or two instructions too long for the memory
+                used_ = len(case["image"])
+                extra_ = sz - used_ + rng.choice([1, 1, 2])
+                case = dict(case, text=case["text"] + "\n" + "\n".join(["INC"] * extra_) if ".data" not in case["text"].split(".text")[-1] else case["text"], overfull=used_ + extra_ - sz)
+                if case["text"].count("INC") < extra_ or ".data" in case["text"].split(".text")[-1]:
+                    case.pop("overfull")
+                case.pop("again", None)
             if sz <= 64:
                 res.count("tight_memory_sources")
             guarded(run_case, prop, case, res)
